@@ -71,3 +71,17 @@ pub proof fn lemma_zero_step(plan: Seq<(Block, u64, usize)>, s0: Sys, s1: Sys, i
     }
     assert(s0.files@.dom() =~= s1.files@.dom());
 }
+
+/// the storage handle of a block is the one of the file its path names (SharedMmapKeeper: one handle per path)
+pub uninterp spec fn file_of_path(p: Seq<char>) -> int;
+/// every file the plan writes to has been flushed since its last write
+pub open spec fn plan_synced(plan: Seq<(Block, u64, usize)>, sys: Sys, n: int) -> bool {
+    forall|i: int| 0 <= i < n && i < plan.len() ==> sys.synced@.contains((#[trigger] plan[i]).0.mmap.file)
+}
+pub open spec fn seen_synced(seen: Set<String>, sys: Sys) -> bool {
+    forall|p: String| #[trigger] seen.contains(p) ==> sys.synced@.contains(file_of_path(p@))
+}
+
+pub open spec fn plan_paths_ok(plan: Seq<(Block, u64, usize)>) -> bool {
+    forall|i: int| 0 <= i < plan.len() ==> (#[trigger] plan[i]).0.mmap.file == file_of_path(plan[i].0.file_path@)
+}
